@@ -26,6 +26,7 @@ type twCfg struct {
 	MaxL   int    `json:"max_len"`
 	Eager  bool   `json:"eager_feed"`
 	Unit   string `json:"time_unit,omitempty"` // "" = ms; "ss": the ts column holds seconds; "ns": nanoseconds
+	GapMs  int64  `json:"gap_ms,omitempty"`    // the second half of the stream (and the sentinel) lies this much later in event time
 }
 
 // twUnitScale converts a timestamp in ms to the value of the ts column.
@@ -75,10 +76,13 @@ func twEvents(c twCfg, tsIdx []int, keyBits int) []ref.Event {
 		if c.Unit == "ss" {
 			ts = ts / 1000 * 1000 // the column holds whole seconds
 		}
+		if c.GapMs > 0 && i >= (len(tsIdx)+1)/2 {
+			ts += c.GapMs // a sparse source: more than a day of event time without any row (all of it far behind the clock)
+		}
 		evs = append(evs, ref.Event{ID: i + 1, Key: k, TS: ts, V: float64(int(1) << uint(i))})
 	}
 	// sentinel far ahead (but far below now+24h of the virtual clock): pushes the watermark past every window
-	evs = append(evs, ref.Event{ID: 99, Key: "zz", TS: 500000, V: 0})
+	evs = append(evs, ref.Event{ID: 99, Key: "zz", TS: 500000 + c.GapMs, V: 0})
 	return evs
 }
 
@@ -261,6 +265,9 @@ func twConfigs(kind, tier string) []twCfg {
 		}
 		out = append(out, twCfg{Kind: kind, SizeMs: 2000, OOOMs: 2000, Keys: 2, MaxL: maxL - 1, Eager: false},
 			twCfg{Kind: kind, SizeMs: 2000, OOOMs: 0, Keys: 2, MaxL: maxL - 1, Eager: true})
+		for _, eager := range []bool{false, true} {
+			out = append(out, twCfg{Kind: kind, SizeMs: 2000, OOOMs: 1000, Keys: 1, MaxL: maxL, Eager: eager, GapMs: 36 * 3600 * 1000})
+		}
 		return out
 	}
 	for _, ss := range [][2]int64{{4000, 2000}, {3000, 2000}, {2000, 2000}, {2000, 3000}, {6000, 2000}} {
@@ -277,6 +284,9 @@ func twConfigs(kind, tier string) []twCfg {
 		out = append(out, twCfg{Kind: kind, SizeMs: 7000, Slide: 3500, OOOMs: 2000, Keys: 1, MaxL: maxL, Eager: eager}) // slide not dividing 24h
 	}
 	out = append(out, twCfg{Kind: kind, SizeMs: 4000, Slide: 2000, OOOMs: 2000, Keys: 2, MaxL: maxL - 1, Eager: false})
+	for _, eager := range []bool{false, true} {
+		out = append(out, twCfg{Kind: kind, SizeMs: 4000, Slide: 2000, OOOMs: 1000, Keys: 1, MaxL: maxL, Eager: eager, GapMs: 36 * 3600 * 1000})
+	}
 	return out
 }
 
